@@ -175,20 +175,29 @@ Proof.
     + lia.
 Qed.
 
-Lemma print_rest_cont : forall x b r, 0 <= x < 128 ->
-  print_rest ((x + 128) :: r) b = print_rest r (wrap32 (b * 128 + x)).
+(* the renderer refuses a sub-identifier above 2^32-1; below the guard nothing wraps *)
+Lemma print_rest_cont : forall x b r, 0 <= x < 128 -> b * 128 + x <= 4294967295 ->
+  print_rest ((x + 128) :: r) b = print_rest r (b * 128 + x).
 Proof.
-  intros x b r Hx. cbn [print_rest]. rewrite land_128_high by exact Hx.
+  intros x b r Hx Hb. cbn [print_rest]. rewrite land_128_high by exact Hx.
   change (128 =? 0) with false. cbv iota.
-  rewrite land_127. replace ((x + 128) mod 128) with x by lia. reflexivity.
+  rewrite land_127. replace ((x + 128) mod 128) with x by lia.
+  destruct (Z.ltb_spec 4294967295 (b * 128 + x)); [lia|reflexivity].
 Qed.
 
-Lemma print_rest_last : forall x b r, 0 <= x < 128 ->
-  print_rest (x :: r) b = DOT :: dec (wrap32 (b * 128 + x)) ++ print_rest r 0.
+Lemma print_rest_last : forall x b r, 0 <= x < 128 -> b * 128 + x <= 4294967295 ->
+  print_rest (x :: r) b = (t <- print_rest r 0 ;; Ok (DOT :: dec (b * 128 + x) ++ t)).
 Proof.
-  intros x b r Hx. cbn [print_rest]. rewrite land_128_low by exact Hx.
+  intros x b r Hx Hb. cbn [print_rest]. rewrite land_128_low by exact Hx.
   change (0 =? 0) with true. cbv iota.
-  rewrite land_127. replace (x mod 128) with x by lia. reflexivity.
+  rewrite land_127. replace (x mod 128) with x by lia.
+  destruct (Z.ltb_spec 4294967295 (b * 128 + x)); [lia|reflexivity].
+Qed.
+
+Lemma print_rest_refuses : forall c b r, 0 <= c < 256 -> 4294967295 < b * 128 + Z.land c 127 ->
+  print_rest (c :: r) b = Err InvalidData.
+Proof.
+  intros c b r Hc Hb. cbn [print_rest]. destruct (Z.ltb_spec 4294967295 (b * 128 + Z.land c 127)); [reflexivity|lia].
 Qed.
 
 Lemma print_rest_base128_from : forall f s acc t,
@@ -198,14 +207,11 @@ Proof.
   induction f as [|f IH]; intros s acc t Hs H32.
   - change (128 ^ Z.of_nat 0) with 1 in Hs. replace s with 0 by lia. reflexivity.
   - rewrite base128_from_S. destruct (Z.ltb_spec s 128) as [Hlt|Hge].
-    + rewrite <- app_comm_cons. rewrite print_rest_cont by lia.
-      replace (s mod 128) with s by lia. change (0 * 128 + s) with s.
-      unfold wrap32. rewrite Z.mod_small by lia. reflexivity.
+    + rewrite <- app_comm_cons. replace (s mod 128) with s by lia. rewrite print_rest_cont by lia.
+      change (0 * 128 + s) with s. reflexivity.
     + rewrite IH.
       * rewrite <- app_comm_cons. rewrite print_rest_cont by lia.
-        unfold wrap32.
-        replace (s / 128 * 128 + s mod 128) with s by lia.
-        rewrite Z.mod_small by lia. reflexivity.
+        replace (s / 128 * 128 + s mod 128) with s by lia. reflexivity.
       * rewrite Nat2Z.inj_succ, Z.pow_succ_r in Hs by lia.
         assert (0 < 128 ^ Z.of_nat f) by (apply Z.pow_pos_nonneg; lia).
         split; [lia|]. apply Z.div_lt_upper_bound; lia.
@@ -213,16 +219,14 @@ Proof.
 Qed.
 
 Lemma print_rest_base128 : forall s t, 0 <= s <= 4294967295 ->
-  print_rest (base128 s ++ t) 0 = DOT :: dec s ++ print_rest t 0.
+  print_rest (base128 s ++ t) 0 = (u <- print_rest t 0 ;; Ok (DOT :: dec s ++ u)).
 Proof.
   intros s t Hs. destruct (Z.ltb_spec s 128) as [Hlt|Hge].
   - rewrite base128_small by lia. cbn [app]. rewrite print_rest_last by lia.
-    change (0 * 128 + s) with s. unfold wrap32. rewrite Z.mod_small by lia.
-    reflexivity.
+    change (0 * 128 + s) with s. reflexivity.
   - rewrite base128_big by lia. rewrite print_rest_base128_from.
-    + cbn [app]. rewrite print_rest_last by lia. unfold wrap32.
-      replace (s / 128 * 128 + s mod 128) with s by lia.
-      rewrite Z.mod_small by lia. reflexivity.
+    + cbn [app]. rewrite print_rest_last by lia.
+      replace (s / 128 * 128 + s mod 128) with s by lia. reflexivity.
     + change (128 ^ Z.of_nat 9) with 9223372036854775808. lia.
     + lia.
 Qed.
